@@ -295,11 +295,16 @@ def run_tree(fam, kind, impl, rng, rec, ti):
     # (a') the same valid tree as a checker meets it right after opening a
     # database: every node a ghost (children are activated on demand)
     stored_ok = False
+    # (the walks hold the node objects: a checker that looks at reference
+    # counts must meet the tree without such extra references)
+    w.release()
+    wc.release()
+    del t, ls
     if not wc.inline_nonroot:
         try:
             conn, gt = store_ghost(ctl, impl)
             det, other = run_checkers_ghost(conn, gt)
-            wg = walker.walk(gt, is_mapping, check_sizes=False)
+            wg = walker.walk(gt, is_mapping, check_sizes=False).release()
         except Exception as e:
             rec.ev('ghost-store-failed')
             wg = None
@@ -350,7 +355,8 @@ def run_tree(fam, kind, impl, rng, rec, ti):
             try:
                 ct2 = surgeon.build(cd, fam, kind, impl, **kw)
                 conn2, _ = store_ghost(ct2, impl)
-                wk2 = walker.walk(ct2, is_mapping, check_sizes=False)
+                wk2 = walker.walk(ct2, is_mapping,
+                                  check_sizes=False).release()
                 conn2.cache.minimize()
             except Exception:
                 rec.ev('corruption-not-storable:' + cls)
